@@ -132,6 +132,8 @@ impl TxDependency {
         let mut state = self.dependent_state[txid].lock();
         if txid > commit_idx.get() {
             state.dependency = Some(txid);
+            #[cfg(feature = "verif")]
+            crate::verif::event(crate::verif::Event::DepBlocked { txid, dep: txid });
         }
         if !state.onboard {
             state.onboard = true;
@@ -171,6 +173,8 @@ impl TxDependency {
             crate::verif::lock_point(crate::verif::pt::LOCK_DEP_STATE, txid, &self.dependent_state[txid]);
             let mut state = self.dependent_state[txid].lock();
             state.dependency = Some(dep_id);
+            #[cfg(feature = "verif")]
+            crate::verif::event(crate::verif::Event::DepBlocked { txid, dep: dep_id });
             if !state.onboard {
                 state.onboard = true;
                 #[cfg(feature = "verif")]
